@@ -187,9 +187,10 @@ class LogicalType(type):  # noqa
         args = []
         resolved = False
         for i, arg in enumerate(cls.args):
-            arg, resolved = resolve_forward_type(arg)
-            if resolved:
+            arg, r = resolve_forward_type(arg)
+            if r:
                 arg = cls._parse_arg(arg)
+                resolved = True
             args.append(arg)
         if resolved:
             # only adjust args if resolved
@@ -1861,11 +1862,16 @@ class Rule(metaclass=LogicalType):
     @classmethod
     def resolve_forward_refs(cls):
         # an override version of LogicalType.resolve_forward_refs
+        resolved = False
+        origin = getattr(cls, "__origin__", None)
+        if isinstance(origin, LogicalType) and origin.combinator:
+            # Rule[AnyOf(ForwardRef('X'), NoneType)]: the references are in the combinator
+            if origin.resolve_forward_refs():
+                resolved = True
         if not cls.__args__:
-            return False
+            return resolved
         args = []
         arg_transformers = []
-        resolved = False
         for arg, trans in zip(cls.__args__, cls.__arg_transformers__):
             if isinstance(arg, LogicalType):
                 # including the Rule class and LogicalType with combinator
